@@ -183,15 +183,6 @@ theorem c08_dhcp_type_codes :
         Dhcp.MessageType.toNat = Elvis.Gen.CodecB.dhcpTypeCodes.map (·.2) := by
   decide
 
-theorem msgTypeTryFrom_toNat (t : Dhcp.MessageType) : Dhcp.msgTypeTryFrom t.toNat = .ok t := by
-  cases t <;> rfl
-
-theorem msgTypeTryFrom_inv {n : Nat} {t : Dhcp.MessageType} (h : Dhcp.msgTypeTryFrom n = .ok t) :
-    n = t.toNat := by
-  unfold Dhcp.msgTypeTryFrom at h
-  repeat' split at h
-  all_goals first | (cases h; simp [Dhcp.MessageType.toNat, *]) | cases h
-
 theorem c08_dhcp_decode_encode (m : Dhcp.DhcpMessage) (rest : Bytes) (h : Dhcp.Wf m) :
     Dhcp.fromBytes (Dhcp.toMessage m ++ rest) = .ok (m, rest) := by
   obtain ⟨⟨h1, h2, h3, h4, h5, h6, h7⟩, ⟨i1, i2, i3, i4, i5⟩, ⟨s1, s2⟩, ⟨f1, f2⟩⟩ := h
